@@ -19,6 +19,8 @@ if len(sys.argv) > 3 and sys.argv[3] == "--wide":
     extra += ("\nThis time prefer one of these kinds of change (they have been tried least so far): a change in the `palette_derive` proc-macro crate that alters the generated code for some types or some derive options; a change spanning two sites that each look fine alone; a change that is only visible for a non-default type parameter (white point, RGB standard, component type incl. integer types, alpha type, SIMD width) ; or one only reachable through a less common API form (by-reference or assigning variants, slice / Vec / Box / array impls, Alpha- or PreAlpha-wrapped forms, iterator adaptors, Default / From / Into / AsRef impls, PartialEq / approx comparison impls, deprecated aliases that delegate).\n")
 if len(sys.argv) > 3 and sys.argv[3] == "--cross":
     extra += ("\nThis time prefer a change that sits at the CROSSING of two features and is invisible when either is used alone, for example: Alpha- or PreAlpha-wrapped colours with a SIMD or integer component type; slices / Vec / arrays of colours with a non-default white point or RGB standard; an operator or conversion reached through a reference (&C, &mut C) or through a generic helper trait (IntoColor, IntoColorUnclamped, TryIntoColor, Into/From between related types, `*_mut` guards) rather than the direct trait; one arm of a macro in palette/src/macros/*.rs or one numeric type's impl in palette/src/num.rs, num/*.rs, bool_mask*.rs, angle*.rs that only some colour types instantiate; a `where` clause / blanket impl that silently selects another implementation for one type family. The violation must still be a violation of THIS property's statement.\n")
+if len(sys.argv) > 3 and sys.argv[3] == "--subtle":
+    extra += ("\nThis time prefer a change whose effect is NUMERICALLY SMALL or confined to a NARROW BAND of inputs, so that only a tight and well-placed check can see it: a constant off in its 5th-8th significant digit; a result that is off by one unit in the last place, by one integer code, or by a relative 1e-7 .. 1e-3; a threshold / knee / sector edge moved by a few ulps or compared with < instead of <= (so that only the exact boundary value, or the few floats next to it, change); a loss of precision (an f64 path computed through f32, a fused or re-associated expression, an approximation with one term dropped) ; a rounding mode changed (round-half-even vs half-away, truncation vs floor for negatives); an off-by-one at the extreme ends of a range (0, MAX, the last table entry, the first/last element of a buffer). The violation must still be a genuine violation of THIS property's statement (state the magnitude and where it appears), and the demo must show it with a justified tolerance.\n")
 open(f"{wt}/TASK.md", "w").write(tmpl.replace("@WT@", wt).replace("@PID@", pid).replace("@EXTRA@", extra))
 os.makedirs(f"{wt}/SEEDED", exist_ok=True)
 print(f"Read {wt}/TASK.md and carry out the task described there exactly. Work only inside {wt}.")
